@@ -42,6 +42,39 @@ def run(repo, chk):
     rule_e(repo, chk)
     rule_f(repo, chk)
     rule_g_h(repo, chk)
+    rule_resumed_yield(chk, t)
+
+
+def rule_resumed_yield(chk, t):
+    """After being resumed (with a result by send(), with an exception by throw()) the caller runs on to its next yield; what it yields there is an ordinary
+    yielded object and must go through the stepper's classification (value / None / sleep / nested call), not be stored as a value on the spot."""
+    chk.rule('C06.i', 'what the caller yields right after it was resumed (parent.send / parent.throw) is either a nested call (wait state armed) or is handed back to '
+                      'the stepper through a one-shot generator; it is never stored as the event value directly')
+    g = t.cfg()
+    ev = t.params[1]
+    n_res = 0
+    for n in g.nodes:
+        if not (n.kind == 'stmt' and isinstance(n.ast, ast.Assign) and isinstance(n.ast.value, ast.Call) and isinstance(n.ast.value.func, ast.Attribute)
+                and n.ast.value.func.attr in ('send', 'throw') and isinstance(n.ast.targets[0], ast.Name)):
+            continue
+        n_res += 1
+        v = n.ast.targets[0].id
+        kind = n.ast.value.func.attr
+        plain = [e for m in g.nodes if m.kind == 'test' and Q.reaches(n, m) for e in m.succ
+                 if e.kind == 'F' and isinstance(m.ast, ast.Call) and call_name(m.ast) == 'isinstance' and src(m.ast.args[0]) == v and 'GeneratorType' in src(m.ast.args[1])]
+        chk.ob('i', t.ref, f'after {kind}() the stepper tells a nested call (generator) from anything else', bool(plain), loc(t, n.ast), discr=f'classified:{kind}')
+        requeue = [m for m in g.nodes if m.kind == 'stmt' and any(
+            c.args and isinstance(c.args[0], ast.Tuple) and len(c.args[0].elts) == 3 and any(
+                isinstance(x, ast.GeneratorExp) and src(x.generators[0].iter).replace(' ', '') == f'({v},)' for x in pat.deref(t, c.args[0].elts[1]))
+            for _r, c in pat.method_calls(m.ast, 'registerTask'))]
+        stores = [m for m in g.nodes if m.kind == 'stmt' and isinstance(m.ast, ast.Assign) and src(m.ast.value) == v and any(a == 'value' for _r, a, _v in pat.attr_store(m.ast))]
+        for e in plain:
+            p = Q.escapes(g, [e.dst], lambda m: m in requeue, exc=()) if e.dst not in requeue else None
+            seen, _ = Q.search([e.dst], exc=())
+            direct = [m for m in stores if m in seen or m is e.dst]
+            chk.ob('i', t.ref, f'a non-generator object yielded after {kind}() is handed back to the stepper (one-shot generator), not stored as the value here',
+                   p is None and bool(requeue) and not direct, loc(t, (direct[0] if direct else e.src).ast), path=pat.path_lines(p) if p else None, discr=f'requeued:{kind}')
+    need(n_res >= 2, f'C06.i: {n_res} resume sites (send/throw) in processTask, 2 confirmed by hand')
 
 
 def rule_f(repo, chk):
@@ -86,6 +119,13 @@ def rule_f(repo, chk):
            not bad and n_sets >= 1, bad[0][0].loc(bad[0][1]) if bad else MANAGER, detail='; '.join(f'{f.ref}: `{src(n)}`' for f, n in bad[:3]), discr='alert-done-only-set')
 
 
+def _parents(n):
+    p = getattr(n, '_parent', None)
+    while p is not None:
+        yield p
+        p = getattr(p, '_parent', None)
+
+
 def _removes(node, handler_var_pred):
     """removeHandler calls in an AST subtree whose first arg satisfies the predicate."""
     return [c for _r, c in pat.method_calls(node, 'removeHandler') if c.args and handler_var_pred(src(c.args[0]))]
@@ -110,6 +150,33 @@ def rule_a_c_d(repo, chk, w):
     done_h = [v for v, (c, e, n) in installs.items() if '_done' in (e or '')]
     tick_h = [v for v, (c, e, n) in installs.items() if e == "'generate_events'"]
     need(ev_h and done_h and tick_h, 'C06.a: temporary handler roles (event, done, tick) not all found')
+    # the arming handler must see the awaited event whatever the other handlers do with it: highest priority
+    for v in ev_h:
+        inner = installs[v][2].value.args[0]
+        kw = {k.arg: src(k.value).replace('"', "'") for k in inner.func.keywords if k.arg}
+        chk.ob('c', w.ref, 'the handler that arms the wait (records the event, asks for its done notification) runs before every other handler of the awaited event, so '
+                           'that a handler which stop()s the event cannot keep the wait from being armed', kw.get('priority') in ("float('inf')", 'math.inf', 'inf'),
+               loc(w, installs[v][2]), detail=f'priority={kw.get("priority", "0 (default)")}', discr='armed-first')
+    # one wait may listen on several channels: each channel needs a handler object of its own (handler() records the channel on the function it decorates)
+    shared_, first_ = [], None
+    for v, (closure, ename, n) in sorted(installs.items()):
+        if '.' in v:
+            continue
+        lp = [p_ for p_ in _parents(n) if isinstance(p_, ast.For)]
+        if not lp:
+            continue
+        inner = n.value.args[0]
+        per_channel = any(k.arg == 'channel' and src(k.value) == src(lp[0].target) for k in inner.func.keywords)
+        shared = isinstance(inner.args[0], ast.Name) and inner.args[0].id in w.nested and not any(
+            isinstance(d_, (ast.FunctionDef, ast.Lambda)) and getattr(d_, 'name', None) == inner.args[0].id for d_ in ast.walk(lp[0]))
+        if per_channel:
+            first_ = first_ or n
+            if shared:
+                shared_.append(closure)
+    if first_ is not None:
+        chk.ob('c', w.ref, 'each channel of a wait gets handler objects of its own (handler() records the channel on the function it decorates: decorating one function '
+                           'once per channel leaves it listening on the last channel only)', not shared_, loc(w, first_), detail='shared: ' + ', '.join(sorted(shared_)),
+               discr='per-channel-handlers')
     # aliases through state.<attr>
     tick_alias = set(tick_h)
     on_event = need(w.nested.get(installs[ev_h[0]][0]), 'C06: _on_event closure missing')
@@ -224,6 +291,14 @@ def rule_a_c_d(repo, chk, w):
         chk.ob('d', on_tick.ref, 'the countdown only decrements positive values (never below 0)', q is None, loc(on_tick, dn.ast),
                discr='countdown-positive')
     chk.ob('d', on_tick.ref, 'the countdown decrements by one per iteration', len(dec) == 1, loc(on_tick, on_tick.node), discr='countdown-step')
+    # the countdown is counted in loop iterations: while it runs the handler must keep the loop from blocking (bound the idle wait of this generate_events)
+    evp = on_tick.params[1] if len(on_tick.params) > 1 else None
+    keep = [n for n in g.nodes if n.kind == 'stmt' and evp is not None and any(r == evp and len(c.args) == 1 for r, c in pat.method_calls(n.ast, 'reduce_time_left'))]
+    for dn in dec:
+        before = Q.reachable_without(g, dn, avoid_node=lambda n: n in keep)
+        after = Q.escapes(g, [dn], lambda n: n in keep)
+        chk.ob('d', on_tick.ref, 'an iteration that only counts down bounds the idle wait of the loop (reduce_time_left on the generate_events event), so that the next '
+                                 'iteration comes', bool(keep) and (before is None or after is None), loc(on_tick, dn.ast), discr='countdown-keeps-loop-turning')
     # state records the tick handler under the name the done path removes
     alias_ok = any(isinstance(n, ast.Assign) and 'state.tick_handler' in [src(t) for t in n.targets] and call_name(n.value) == 'self.addHandler'
                    for n in walk_no_defs(w.node))
